@@ -57,9 +57,19 @@ func splitLog(src, log string) (diags []implDiag, warns []implDiag, malformed []
 	return
 }
 
+var (
+	rtRe0 = regexp.MustCompile(`^(\w+): invalid types: ([\w:.]+), ([\w:.]+)$`)
+	rtRe1 = regexp.MustCompile(`^NEG: invalid type: ([\w:.]+), expected number$`)
+	rtRe2 = regexp.MustCompile(`^UNPLUS: invalid type: ([\w:.]+), expected number$`)
+	rtRe3 = regexp.MustCompile(`^identifier '(.*)' not resolved as var or field$`)
+	rtRe4 = regexp.MustCompile(`^child (.*) duplicate at parent$`)
+	rtRe5 = regexp.MustCompile(`^bind: no blocks of type (.*)$`)
+	rtRe6 = regexp.MustCompile(`^bind: found (\d+) blocks of type (.*) but expected just 1$`)
+)
+
 // rtClass maps a runtime error message to the class vocabulary of the reference.
 func rtClass(msg string) string {
-	if m := regexp.MustCompile(`^(\w+): invalid types: ([\w:.]+), ([\w:.]+)$`).FindStringSubmatch(msg); m != nil {
+	if m := rtRe0.FindStringSubmatch(msg); m != nil {
 		fam := map[string]string{"ADD": "add", "SUB": "sub", "MUL": "mul", "DIV": "div", "LT": "ord", "GT": "ord", "EQ": "eq"}[m[1]]
 		if fam == "" {
 			fam = "?" + m[1]
@@ -69,22 +79,22 @@ func rtClass(msg string) string {
 	if msg == "division by int zero" {
 		return "divzero"
 	}
-	if m := regexp.MustCompile(`^NEG: invalid type: ([\w:.]+), expected number$`).FindStringSubmatch(msg); m != nil {
+	if m := rtRe1.FindStringSubmatch(msg); m != nil {
 		return "neg:" + m[1]
 	}
-	if m := regexp.MustCompile(`^UNPLUS: invalid type: ([\w:.]+), expected number$`).FindStringSubmatch(msg); m != nil {
+	if m := rtRe2.FindStringSubmatch(msg); m != nil {
 		return "unplus:" + m[1]
 	}
-	if m := regexp.MustCompile(`^identifier '(.*)' not resolved as var or field$`).FindStringSubmatch(msg); m != nil {
+	if m := rtRe3.FindStringSubmatch(msg); m != nil {
 		return "unresolved:" + m[1]
 	}
-	if m := regexp.MustCompile(`^child (.*) duplicate at parent$`).FindStringSubmatch(msg); m != nil {
+	if m := rtRe4.FindStringSubmatch(msg); m != nil {
 		return "dupchild:" + m[1]
 	}
-	if m := regexp.MustCompile(`^bind: no blocks of type (.*)$`).FindStringSubmatch(msg); m != nil {
+	if m := rtRe5.FindStringSubmatch(msg); m != nil {
 		return "bind-none:" + m[1]
 	}
-	if m := regexp.MustCompile(`^bind: found (\d+) blocks of type (.*) but expected just 1$`).FindStringSubmatch(msg); m != nil {
+	if m := rtRe6.FindStringSubmatch(msg); m != nil {
 		return "bind-count:" + m[1] + ":" + m[2]
 	}
 	if strings.Contains(msg, "negative repeat count") {
